@@ -1668,6 +1668,9 @@ func VerifC17UT(typ, pos, n int, tmpl string) {
 func VerifC17UOpts(typ, pos, api int, reset bool) {
 	zz17Reset()
 	bU, bD, bS, bR := vrt.Bool("u"), vrt.Bool("d"), vrt.Bool("s"), vrt.Bool("r")
+	if pos == zz17UMapKey {
+		vrt.Assume(!bS) // the frame {X:1} holds an unquoted number as the map value
+	}
 	var gU, gD, gS, gR, okAll, panicked bool
 	zz17FromFn = func(dec *jsontext.Decoder, set func(int8)) error {
 		o := dec.Options()
